@@ -13,9 +13,9 @@ PROPS = {"C12": dict(
     technique="adversarial tile-server model with ground-truth comparison",
     budget={"quick": 600, "thorough": 2400},
     units=[
-        rapid("root", ".", "^TestVerifC12Iterators$", 2500, 6000),
-        rapid("root", ".", "^TestVerifC12EntryAndSCT$", 4000, 10000),
-        rapid("root", ".", "^TestVerifC12Checkpoint$", 2000, 5000),
+        rapid("root", ".", "^TestVerifC12Iterators$", 2500, 4000),
+        rapid("root", ".", "^TestVerifC12EntryAndSCT$", 4000, 6000),
+        rapid("root", ".", "^TestVerifC12Checkpoint$", 2000, 3000),
         # systematic single-fault enumeration (every size 257..1100 x every data tile); deterministic, one process
         plain("root", ".", "^TestVerifC12BundleSweep$", 1, 1, qs=1, ts=1),
     ])}
